@@ -387,6 +387,29 @@ const W_API: &[(K, u64)] = &[
     (K::Join, 1),
 ];
 
+const W_OVERLOAD: &[(K, u64)] = &[
+    (K::Root, 12),
+    (K::Child, 10),
+    (K::ChildLocal, 3),
+    (K::Finish, 16),
+    (K::Cancel, 5),
+    (K::SetLocalParent, 6),
+    (K::LocalEnter, 8),
+    (K::Pop, 14),
+    (K::AddProps, 3),
+    (K::AddEvent, 3),
+    (K::LocalAddEvent, 2),
+    (K::StartCollector, 1),
+    (K::Push, 2),
+    (K::LocalBurst, 1),
+    (K::ScopeBurst, 1),
+    (K::Flush, 1),
+    (K::Cycle, 3),
+    (K::Sleep, 3),
+    (K::Exit, 3),
+    (K::Join, 2),
+];
+
 const W_SETS: &[(K, u64)] = &[
     (K::Root, 8),
     (K::Child, 10),
@@ -536,6 +559,20 @@ pub fn profile(prop: &str) -> Profile {
             max_depth: 8,
             ..b
         },
+        "C09" => Profile {
+            prop: "C09",
+            callers: (1, 3),
+            ops: (15, 80),
+            cancelable_pct: 40,
+            weights: W_OVERLOAD,
+            ring_caps: &[(2, 3), (3, 2), (4, 2), (8, 2), (16, 1), (0, 1)],
+            stall_pct: 50,
+            props_pct: 30,
+            warm_pct: 60,
+            exit_after_finish_pct: 30,
+            live_tail: false,
+            ..b
+        },
         "C13" => Profile {
             prop: "C13",
             callers: (0, 3),
@@ -612,6 +649,7 @@ struct Gen<'a> {
     ntraces: usize,
     interval: u64,
     bursts: u32,
+    burst_ok: bool,
 }
 
 impl<'a> Gen<'a> {
@@ -1118,7 +1156,7 @@ impl<'a> Gen<'a> {
             }
             K::TeardownLate => self.push(t, Op::TeardownCalls { early: false }),
             K::LocalBurst => {
-                if self.bursts >= 1 {
+                if self.bursts >= 1 || !self.burst_ok {
                     return false;
                 }
                 self.bursts += 1;
@@ -1126,7 +1164,7 @@ impl<'a> Gen<'a> {
                 self.push(t, Op::LocalBurst { n })
             }
             K::ScopeBurst => {
-                if self.bursts >= 1 {
+                if self.bursts >= 1 || !self.burst_ok {
                     return false;
                 }
                 let live = self.live_spans();
@@ -1260,7 +1298,10 @@ pub fn generate_with(p: &Profile, seed: u64) -> Case {
         ntraces,
         interval,
         bursts: 0,
+        burst_ok: false,
     };
+    // limit-overflow bursts are expensive (10k spans / 4k scopes): a few per cent of the runs
+    g.burst_ok = g.rng.pct(4);
     let late = g.rng.pct(p.late_reporter_pct);
     if late {
         // a few operations before any reporter exists (they must all be inert)
